@@ -68,6 +68,15 @@ class FakeProcess:
     def is_alive(self):
         return FakeProcess.script.alive[self.idx]
 
+    @property
+    def exitcode(self):
+        # None while alive; a dead scripted worker reports the CLEAN status 0 (the most adversarial value: a parent that takes
+        # "exit status 0" for "finished properly" never notices that the completion marker is missing)
+        return None if FakeProcess.script.alive[self.idx] else 0
+
+    def join(self, timeout=None):
+        return None
+
     def terminate(self):
         FakeProcess.script.terminated = True
 
